@@ -424,6 +424,17 @@ class Emitter {
       o["cond"] = expr(X->getCond());
       o["then"] = stmt(X->getThen());
       if (X->getElse()) o["else"] = stmt(X->getElse());
+      if (const DeclStmt* CV = X->getConditionVariableDeclStmt()) {
+        // `if (T v = init) ...` is emitted as `{ T v = init; if (v) ... }` so every engine sees the declaration
+        json::Object blk;
+        blk["k"] = "block";
+        blk["loc"] = loc(S->getBeginLoc());
+        json::Array body;
+        body.push_back(stmt(CV));
+        body.push_back(std::move(o));
+        blk["body"] = std::move(body);
+        return std::move(blk);
+      }
       return std::move(o);
     }
     if (auto* X = dyn_cast<ForStmt>(S)) {
